@@ -254,12 +254,21 @@ def _via_file(info, target, max_scales, typ=None, enc=None):
         sandbox.rm(d)
 
 
-def _eval_params(col, typ, enc, dtype, nch, pre_enc, pre_type):
+def _eval_params(col, typ, enc, dtype, nch, pre_enc, pre_type,
+                 extra_scale=False):
     case = {"kind": "params", "type": typ, "encoding": enc,
             "data_type": dtype, "channels": nch, "input_encoding": pre_enc,
             "input_type": pre_type}
     size, res = (130, 70, 33), (1.0, 1.0, 2.0)
     info = base_info(size, res, enc=pre_enc or "raw", dtype=dtype, nch=nch)
+    if extra_scale:
+        # a source description with a left-over second scale is legal: only
+        # the first one is used
+        case["extra_scale"] = True
+        info["scales"].append({"encoding": "raw", "size": [7, 7, 7],
+                               "resolution": [50.0, 50.0, 50.0],
+                               "voxel_offset": [0, 0, 0], "key": "old",
+                               "chunk_sizes": [[64, 64, 64]]})
     if pre_enc is None:
         del info["scales"][0]["encoding"]
     if pre_type is None:
@@ -336,7 +345,7 @@ def space(tier):
             "targets": len(targets), "max_scales": len(ms),
             "geometry_product": len(sizes) ** 3 * len(ress) ** 3
             * len(targets) * len(ms),
-            "params_product": 3 * 4 * 5 * 3 * 2 * 2}
+            "params_product": 3 * 4 * 5 * 3 * (4 * 2 + 1)}
 
 
 def run_unit(u):
@@ -360,10 +369,13 @@ def run_unit(u):
                 for dtype in ("uint8", "uint16", "uint32", "uint64",
                               "float32"):
                     for nch in (1, 2, 3):
-                        for pre_enc in (None, "raw"):
+                        for pre_enc in (None, "raw",
+                                        "compressed_segmentation", "jpeg"):
                             for pre_type in (None, "segmentation"):
                                 _eval_params(col, typ, enc, dtype, nch,
                                              pre_enc, pre_type)
+                        _eval_params(col, typ, enc, dtype, nch, "raw",
+                                     None, extra_scale=True)
         col.sample({"kind": "params", "type": None,
                     "encoding": "compressed_segmentation",
                     "data_type": "uint16", "channels": 1})
@@ -379,5 +391,5 @@ def replay(case):
     else:
         _eval_params(col, case["type"], case["encoding"], case["data_type"],
                      case["channels"], case["input_encoding"],
-                     case["input_type"])
+                     case["input_type"], case.get("extra_scale", False))
     return col.records()
